@@ -52,8 +52,6 @@ func verifRunConc(c verifC01Case) (out verifC01Out) {
 	gb.proba = mathx.NewProbaWithSource(src)
 	cancelled, cancel := context.WithCancel(context.Background())
 	cancel()
-	acceptable := verifAcceptable
-
 	ths := make([]*verifThread, len(c.Calls))
 	for i := range ths {
 		ths[i] = &verifThread{parked: make(chan struct{}), release: make(chan struct{}), done: make(chan struct{})}
@@ -80,11 +78,13 @@ func verifRunConc(c verifC01Case) (out verifC01Out) {
 			return
 		}
 		pv := &verifPanic{n: tid}
+		var pst verifPredState
+		acceptable := verifPred(outc, any(pv), &pst)
 		req := func() error {
 			t.req++
 			t.parked <- struct{}{}
 			<-t.release
-			return verifOutcome(outc, pv)
+			return pst.returned(verifOutcome(outc, pv))
 		}
 		fb := func(err error) error {
 			t.fb++
